@@ -41,6 +41,9 @@ def cases(tier, seed):
     for shape in ([10, 5], [37, 3], [1, 64], [128, 1]):
         for pattern in range(4):
             yield dict(kind='large', shape=shape, pattern=pattern)
+    # the LARGEST count of the catalog is exactly 127 / 128 / 129 / 255 / 256 / 1024 (pattern 5..10)
+    for pattern in range(5, 11):
+        yield dict(kind='large', shape=[10, 5], pattern=pattern)
     # hundreds of thousands of bins, sparse observations
     yield dict(kind='large', shape=[40000, 6], pattern=4)
     yield dict(kind='large', shape=[300, 20], pattern=4)
@@ -168,9 +171,13 @@ def run_case(case):
         # rates and counts from closed-form patterns (no randomness): rate_i spans 1e-12..1e3, counts i mod m with spikes
         n = nc * nm
         pat = case['pattern']
-        rates = [[1e-3 * (1 + (i * 7) % 13), 10.0 ** (-12 + (i % 16)), 0.5 + (i % 5), (0.0 if i % 11 == 3 else 2.0 + i), 1e-3 * (1 + (i * 7) % 13)][pat] for i in range(n)]
-        counts = [[(i % 3) + (200 if i == 1 else 0), (7 if i % 10 == 0 else 0) + (500 if i == n - 1 else 0), (i % 7) + (100 if i == n // 2 else 0), (0 if rates[i] == 0 else (i % 2) * 6),
-                   (1 if i % 997 == 0 else 0) + (3 if i == n // 2 else 0)][pat] for i in range(n)]
+        rates = [[1e-3 * (1 + (i * 7) % 13), 10.0 ** (-12 + (i % 16)), 0.5 + (i % 5), (0.0 if i % 11 == 3 else 2.0 + i), 1e-3 * (1 + (i * 7) % 13)][min(pat, 4)] for i in range(n)]
+        counts = [[(i % 3) + (200 if i == 1 else 0) + (128 if i == 3 else 0) + (252 if i == 5 else 0), (7 if i % 10 == 0 else 0) + (500 if i == n - 1 else 0) + (129 if i == 2 else 0), (i % 7) + (100 if i == n // 2 else 0) + (127 if i == 0 else 0), (0 if rates[i] == 0 else (i % 2) * 6),
+                   (1 if i % 997 == 0 else 0) + (3 if i == n // 2 else 0)][min(pat, 4)] for i in range(n)]
+        if pat >= 5:
+            rates = [1e-3 * (1 + (i * 7) % 13) for i in range(n)]
+            counts = [i % 3 for i in range(n)]
+            counts[4] = [127, 128, 129, 255, 256, 1024][pat - 5]
         if pat == 3:
             counts[3 if n > 3 else 0] = 0
         fc = fixtures.gridded_forecast(numpy.array(rates, dtype=float).reshape(nc, nm), reg, mags)
@@ -192,6 +199,15 @@ def run_case(case):
                 evals += judge_pair(shape, rates, rc, same_cat, fc, None, failures, hsh)
                 for f in failures[before:]:
                     f['signature'] += ',events-replaced-on-the-same-catalog-object'
+        # forecasts whose total is within 1e-6 (relative) of the observed number of events, and exactly equal to it
+        tot_, nob_ = float(sum(rates)), float(sum(counts))
+        if nob_ > 0 and n <= 20000 and pat != 3:
+            for fac in (1.0 + 8e-6, 1.0 - 6e-6, 1.0):
+                r2 = [r * (nob_ / tot_) * fac for r in rates]
+                before = len(failures)
+                evals += judge_pair(shape, r2, counts, cat, fixtures.gridded_forecast(numpy.array(r2, dtype=float).reshape(nc, nm), reg, mags), None, failures, hsh, tests=('S', 'M', 'CL'))
+                for f in failures[before:]:
+                    f['signature'] += ',forecast-total-nearly-equal-to-N_obs'
         # M-test with an observed catalog that is bound to ANOTHER magnitude grid (same cells, bins twice as wide): the observed
         # magnitude histogram is the one on the FORECAST's bins
         if nm >= 2 and n <= 20000:
